@@ -23,7 +23,7 @@ RULE = ("states = canonical (model rows, implementation object incl. lazy-view s
 ASSUMPTIONS = ["the reference model of a chain: C02 list-of-rows indexing and numpy applied per row",
                "differential oracle: the same probe on RaggedArray(model rows) built fresh; exception types are not compared",
                "canonicalisation argument of DESIGN.md section 2.1 (nothing is abstracted, merging is sound)"]
-REQUIRED_FEATURES = ["state_RaggedView", "state_RaggedView2", "state_RaggedShape", "view_of_view", "neg_col_step_compounded",
+REQUIRED_FEATURES = ["selection_of_selection", "neg_col_step_twice", "state_is_fresh_selection", "state_from_array_function",
                      "alias_chain", "assign_probe", "materialise_transition", "state_with_empty_row", "zero_row_state"]
 BOUNDS = {"quick": "8 base arrays (empty row first/middle/last/none/all, one row, zero rows), all chains of depth <= 2 over the derivation "
                    "alphabet (~85 row selectors, ~190 (rows, column-slice) pairs, 10 ufunc/array-function steps, materialise), "
@@ -366,14 +366,19 @@ def _transition(acc, base, chain, seen, check=True):
 
 
 def _features(acc, chain, objs, models):
-    x = objs[-1]
-    acc.feature("state_" + shape_class(x))
-    pending = shape_class(x) != "RaggedShape"
+    """coverage features.  The ones the vacuity guard relies on are functions of the chain (black box); the
+    ones read from hidden attributes are informational only and are skipped on a tree where they do not exist."""
     idx_ops = [op for op in chain if op[0] == "idx" and op[1] not in ALIAS_SELS]
-    if pending and len(idx_ops) >= 2 and chain[-1][0] == "idx" and chain[-2][0] == "idx":
-        acc.feature("view_of_view")
-    if pending and getattr(x._shape, "col_step", 1) not in (1, None) and len(idx_ops) >= 2 and getattr(x._shape, "col_step", 1) < 0:
-        acc.feature("neg_col_step_compounded")
+    last_two_idx = len(chain) >= 2 and all(op[0] == "idx" and op[1] not in ALIAS_SELS for op in chain[-2:])
+    if last_two_idx:
+        acc.feature("selection_of_selection")
+        negs = [op for op in chain[-2:] if op[1][0] == "t" and op[1][2][0] == "s" and (op[1][2][3] or 1) < 0]
+        if len(negs) == 2:
+            acc.feature("neg_col_step_twice")
+    if chain and chain[-1][0] == "idx" and chain[-1][1] not in ALIAS_SELS:
+        acc.feature("state_is_fresh_selection")
+    if chain and chain[-1][0] not in ("idx", "mat"):
+        acc.feature("state_from_array_function")
     if chain and all(is_alias_op(op) for op in chain):
         acc.feature("alias_chain")
     if chain and chain[-1][0] == "mat":
@@ -382,6 +387,15 @@ def _features(acc, chain, objs, models):
         acc.feature("state_with_empty_row")
     if len(models[-1]) == 0:
         acc.feature("zero_row_state")
+    pending = bool(chain) and chain[-1][0] == "idx" and chain[-1][1] not in ALIAS_SELS
+    try:
+        x = objs[-1]
+        acc.feature("hidden:state_" + shape_class(x))
+        pending = shape_class(x) != "RaggedShape"
+        if pending and (getattr(x._shape, "col_step", 1) or 1) < 0 and len(idx_ops) >= 2:
+            acc.feature("hidden:neg_col_step_compounded")
+    except Exception:  # noqa: BLE001
+        pass
     if pending or (chain and chain[-1][0] not in ("idx", "mat")):
         acc.nontrivial()
 
